@@ -75,3 +75,40 @@ pub(crate) fn random_state_new() -> std::hash::RandomState {
 pub(crate) fn crc_hasher_new() -> crc32fast::Hasher {
 	crc32fast::Hasher::internal_new_baseline(0, 0)
 }
+
+// --- parking_lot Condvar slow paths (parking): unreachable in a single-threaded harness; reaching one fails the proof
+pub(crate) fn condvar_notify_one_slow(_c: &parking_lot::Condvar, _m: *mut parking_lot::RawMutex) -> bool {
+	panic!("verif: parking_lot condvar slow path reached")
+}
+pub(crate) fn condvar_notify_all_slow(_c: &parking_lot::Condvar, _m: *mut parking_lot::RawMutex) -> usize {
+	panic!("verif: parking_lot condvar slow path reached")
+}
+pub(crate) fn condvar_wait_until_internal(
+	_c: &parking_lot::Condvar,
+	_m: &parking_lot::RawMutex,
+	_timeout: Option<std::time::Instant>,
+) -> parking_lot::WaitTimeoutResult {
+	panic!("verif: parking_lot condvar wait reached")
+}
+
+pub(crate) fn try_lock_shared_slow(_l: &parking_lot::RawRwLock, _recursive: bool) -> bool {
+	panic!("verif: parking_lot slow path reached")
+}
+pub(crate) fn try_lock_upgradable_slow(_l: &parking_lot::RawRwLock) -> bool {
+	panic!("verif: parking_lot slow path reached")
+}
+pub(crate) fn try_upgrade_slow(_l: &parking_lot::RawRwLock) -> bool {
+	panic!("verif: parking_lot slow path reached")
+}
+pub(crate) unsafe fn bump_shared_slow(_l: &parking_lot::RawRwLock) {
+	panic!("verif: parking_lot slow path reached")
+}
+pub(crate) fn bump_exclusive_slow(_l: &parking_lot::RawRwLock) {
+	panic!("verif: parking_lot slow path reached")
+}
+pub(crate) fn bump_upgradable_slow(_l: &parking_lot::RawRwLock) {
+	panic!("verif: parking_lot slow path reached")
+}
+pub(crate) fn mutex_bump_slow(_m: &parking_lot::RawMutex) {
+	panic!("verif: parking_lot slow path reached")
+}
